@@ -340,13 +340,19 @@ func ruleFollowerSuffixRefresh(c *Ctx) {
 	isLeader := F(P.Method("server/member", "Member", "IsLeader"))
 	getMax := F(P.Method(tso, "AllocatorManager", "getMaxLocalTSOSuffix"))
 	mu := P.Field(tso, "AllocatorManager", "mu")
-	c.need(rule, fn, "release of am.mu at the end of a round", func(x ssa.Instruction) bool {
-		cl, ok := x.(*ssa.Call)
-		if !ok || cl.Call.StaticCallee() == nil || cl.Call.StaticCallee().Name() != "Unlock" || len(cl.Call.Args) == 0 {
-			return false
+	isMuCall := func(name string) func(ssa.Instruction) bool {
+		return func(x ssa.Instruction) bool {
+			cl, ok := x.(*ssa.Call)
+			if !ok || cl.Call.StaticCallee() == nil || cl.Call.StaticCallee().Name() != name || len(cl.Call.Args) == 0 {
+				return false
+			}
+			return derivesFrom(cl.Call.Args[0], func(v ssa.Value) bool { return fieldOfAddr(v) == mu }, 4)
 		}
-		return derivesFrom(cl.Call.Args[0], func(v ssa.Value) bool { return fieldOfAddr(v) == mu }, 4)
-	}, []Ev{guardCall("this member is the PD leader", true, callMatcher(isLeader)), &calledEv{name: "getMaxLocalTSOSuffix()", match: instrCallMatcher(getMax)}}, anyOf,
+	}
+	started := &calledEv{name: "the round took am.mu (it got past the early exits)", match: isMuCall("Lock")}
+	c.need(rule, fn, "end of a checker round", func(x ssa.Instruction) bool { _, ok := x.(*ssa.Return); return ok },
+		[]Ev{started, guardCall("this member is the PD leader", true, callMatcher(isLeader)), &calledEv{name: "getMaxLocalTSOSuffix()", match: instrCallMatcher(getMax)}},
+		func(h []bool) bool { return !h[0] || h[1] || h[2] },
 		"a follower re-reads the largest persisted suffix in every round")
 	// local path: the overflow test of getTS sees the differentiated logical part, i.e. generateTSO is
 	// given the suffix width getTS was called with and nothing is shifted afterwards
